@@ -337,6 +337,9 @@ func checkC16(rd *RunData) []Violation {
 			}
 		}
 	}
+	probeN("c16.gets", gets)
+	probeN("c16.hits-certain", hits)
+	probeN("c16.hits-or-misses-overlapping-their-write", maybe)
 	for _, r := range rd.Recs {
 		if r.Client == -1 && r.Op.Kind == "stats" {
 			if uint64(r.N)+r.N2 != uint64(gets) {
@@ -373,6 +376,7 @@ func checkC16(rd *RunData) []Violation {
 				vs = append(vs, Violation{"C16/estimated-size", fmt.Sprintf("EstimatedSize() = %d but resident cost is %d", r.N, sum)})
 			}
 		case "range":
+			probe("c16.range-compared")
 			now := r.InvT - rd.ClockStart(sn)
 			nowEnd := r.RetT - rd.ClockStart(sn)
 			must := map[int]int64{} // unexpired for the whole Range
